@@ -17,15 +17,15 @@ RULE = ("operations (27:  create of four base descriptions from JSON and from YA
         "ciphertext/tag). Reference: each operation alone in a FRESH interpreter under PYTHONHASHSEED in {0,1,2,4242,random} "
         "and cwd in {scratch, /, a directory of decoy files named like the inputs}; all references of one operation must be "
         "byte-identical, and JSON and YAML renderings must give identical envelopes. Histories (each in one fresh interpreter, "
-        "the output at the compared positions must equal that operation's reference): star histories A;B1..B27 in two "
+        "the output at the compared positions must equal that operation's reference): star histories A;B1..B30 in two "
         "orders with every position compared (quick), every ordered pair A;B incl. A;A (thorough; pairs are the deviation "
         "bound that exposes state leaking from one call into the next); all permutations of two 4-operation sets (every position "
         "compared); the pairs once more with the verification hook OFF (slice in quick, all in thorough); thorough adds "
         "all triples of the 8 operations that touch class tables. Histories are never merged (hidden interpreter state). "
         "states = histories executed, transitions = operations executed inside them")
 ASSUMPTIONS = ["inputs are given by absolute path", "randomised parts (ECDSA signature value, IV/ciphertext/tag) are masked as the property allows"]
-BOUNDS = {"quick": "27 x 7 references; 54 star histories (A then all 27 operations, two orders, every position compared); 48 permutations; 27 star histories with the hook off",
-          "thorough": "+ all 27^2 ordered pairs, hook on and off; 8^3 triples of the class-table operations"}
+BOUNDS = {"quick": "30 x 7 references; 60 star histories (A then all 30 operations, two orders, every position compared); 48 permutations; 30 star histories with the hook off",
+          "thorough": "+ all 30^2 ordered pairs, hook on and off; 8^3 triples of the class-table operations"}
 
 OPNAMES = list(ops18.OPS)
 
